@@ -134,13 +134,15 @@ def run_case(spec):
     res = {"evals": 0, "nontrivial": [], "counters": {}, "violations": [], "sets": {"order_classes": []}}
     small = rng.random() < 0.6
     g = gen.ProgGen(rng, max_depth=rng.choice([2, 3]) if small else rng.choice([3, 4, 5]), max_nodes=rng.choice([3, 5]) if small else rng.choice([12, 30]),
-                    value_depth=0, fail_p=0.3, allow_tb=True, remote_vias=("same", "thread"))
+                    value_depth=0, fail_p=0.3, allow_tb=True, remote_vias=("same", "thread"), defer_p=0.3)
     prog = g.program()
     tape = Tape()
     rec = Recorder(tape, "rec")
     add_destinations(rec)
     try:
-        Interp(tape=tape).run(prog)
+        it0 = Interp(tape=tape)
+        it0.allow_defer = True
+        it0.run(prog)
     finally:
         remove_destination(rec)
     msgs = tape.msgs("rec")
